@@ -62,7 +62,7 @@ func checkC04(p *Prog, r *Result, tier string) {
 				}
 			}}
 		}, nil)
-		n := exploreLoops(p, c, r, cl, func(lp natLoop, cls EffSet) bool { return cls.Has(EFsWSchema) }, []Valuation{{}}, m2,
+		n := exploreLoops(p, c, r, cl, func(lp natLoop, cls EffSet) bool { return cls.Has(EFsWSchema) && loopRangesField(lp, p.A.DBSchemas) }, []Valuation{{}}, m2,
 			func(lp natLoop, idx int, val Valuation) *effListener {
 				l := &effListener{p: p, r: r, root: cl, val: val}
 				l.onEnd = func(l *effListener, x *Explorer, st *State, reason string) {
@@ -527,3 +527,23 @@ func checkLossyDetour(p *Prog, r *Result, rule string) {
 }
 
 var _ = token.ADD
+
+// loopRangesField: the loop iterates (range) over the value of the given struct field.
+func loopRangesField(lp natLoop, field *types.Var) bool {
+	for _, b := range lp.blocks {
+		for _, in := range b.Instrs {
+			nx, ok := in.(*ssa.Next)
+			if !ok {
+				continue
+			}
+			rg, ok := nx.Iter.(*ssa.Range)
+			if !ok {
+				continue
+			}
+			if _, f, _ := loadedField(rg.X); f == field {
+				return true
+			}
+		}
+	}
+	return false
+}
